@@ -1027,6 +1027,302 @@ Proof.
   cbn [map]. rewrite !Qsum_cons, IH. ring.
 Qed.
 
+(* ------------------------------------------------------------------------------------------ *)
+(** * requests by trough column (stock and diluent may be two columns of ONE trough) *)
+
+(** the well id names a well of column [col] (any row letter) *)
+Definition in_column (col : nat) (w : string) : bool :=
+  match id_rc w with Some rc => (snd rc =? col)%nat | None => false end.
+(** volume one [transfer] call requests from the wells of column [col] of its source labware *)
+Definition column_total (col : nat) (sw dw : arr string) (vs : arr Q) : Q :=
+  gsum (fun sd => in_column col (fst sd)) (t_triples sw dw vs).
+Definition requested_col (k col : nat) (o : op) : Q :=
+  match o with
+  | OTransfer ks sw _ dw vs _ _ _ _ => if (ks =? k)%nat then column_total col sw dw vs else 0
+  | _ => 0
+  end.
+Definition requested_col_all (k col : nat) (ops : list op) : Q := Qsum (map (requested_col k col) ops).
+
+Lemma in_column_well_id r c col : (r < 26)%nat -> in_column col (well_id r c) = (c =? col)%nat.
+Proof. intro Hr. unfold in_column. rewrite id_rc_well_id by exact Hr. reflexivity. Qed.
+
+Lemma gsum_src_const (q : string -> bool) (b : bool) (A B : list string) : forall (V : list Q),
+  (forall w, In w A -> q w = b) -> length A = length B -> length B = length V ->
+  gsum (fun sd => q (fst sd)) (zip (zip A B) V) == if b then Qsum V else 0.
+Proof.
+  revert B. induction A as [|x A IH]; intros B V Hq HA HB.
+  - destruct B; [|cbn [length] in HA; lia]. destruct V; [|cbn [length] in HB; lia].
+    cbn [zip]. rewrite gsum_nil. destruct b; reflexivity.
+  - destruct B as [|y B]; [cbn [length] in HA; lia|]. destruct V as [|v V]; [cbn [length] in HB; lia|].
+    cbn [zip]. rewrite gsum_cons, IH.
+    + cbn [fst snd]. rewrite (Hq x (or_introl eq_refl)). destruct b; [rewrite Qsum_cons; reflexivity|ring].
+    + intros w Hw. apply Hq. right. exact Hw.
+    + cbn [length] in HA. lia.
+    + cbn [length] in HB. lia.
+Qed.
+
+Lemma requested_col_all_app k col l1 l2 :
+  requested_col_all k col (l1 ++ l2) == requested_col_all k col l1 + requested_col_all k col l2.
+Proof. unfold requested_col_all. rewrite map_app. apply Qsum_app'. Qed.
+
+Lemma requested_col_all_cons k col o l :
+  requested_col_all k col (o :: l) == requested_col k col o + requested_col_all k col l.
+Proof. unfold requested_col_all. cbn [map]. apply Qsum_cons. Qed.
+
+Lemma requested_col_all_nil k col : requested_col_all k col [] == 0.
+Proof. reflexivity. Qed.
+
+Lemma requested_col_all_zero k col ops :
+  (forall o, In o ops -> requested_col k col o == 0) -> requested_col_all k col ops == 0.
+Proof. intro H. unfold requested_col_all. apply Qsum_zero. exact H. Qed.
+
+Lemma requested_col_all_flat_map {A} k col (f : A -> list op) l :
+  requested_col_all k col (flat_map f l) == Qsum (map (fun x => requested_col_all k col (f x)) l).
+Proof.
+  induction l as [|x l IH]; [reflexivity|].
+  cbn [flat_map map]. rewrite requested_col_all_app, Qsum_cons, IH. reflexivity.
+Qed.
+
+Lemma trough_wells_ne g col : (0 < n_row_ids g)%nat -> trough_column_wells g col <> [].
+Proof.
+  intro H. unfold trough_column_wells. destruct (n_row_ids g) as [|n]; [lia|]. cbn [seq map]. discriminate.
+Qed.
+
+Lemma trough_cycle_in_column g tcol col n w :
+  In w (cycle_wells n (trough_column_wells g tcol)) -> in_column col w = (tcol =? col)%nat.
+Proof.
+  intro Hw. apply cycle_wells_In in Hw. destruct (trough_column_wells_In _ _ _ Hw) as (r & Hr & ->).
+  apply in_column_well_id. pose proof (n_row_ids_le g) as Hle. lia.
+Qed.
+
+(** a transfer from column [tcol] of a trough into a plate column requests everything from that column *)
+Lemma trough_transfer_col a g tcol col (V : list Q) cx :
+  (0 < n_row_ids g)%nat -> length V = tw_R a ->
+  column_total col (A1 (cycle_wells (tw_R a) (trough_column_wells g tcol))) (col_wells a cx) (A1 V) ==
+  if (tcol =? col)%nat then Qsum V else 0.
+Proof.
+  intros Hg LV. unfold column_total, col_wells.
+  rewrite (t_triples_A1 _ _ _ (tw_R a));
+    [|apply cycle_wells_length; apply trough_wells_ne; exact Hg|apply column_wells_length|exact LV].
+  apply gsum_src_const.
+  - intros w Hw. exact (trough_cycle_in_column _ _ _ _ _ Hw).
+  - rewrite column_wells_length. apply cycle_wells_length. apply trough_wells_ne. exact Hg.
+  - rewrite column_wells_length. symmetry. exact LV.
+Qed.
+
+Section RequestedCol.
+Variables (a : twl_args) (p : dplan) (gs gd : geom) (k col : nat).
+Hypothesis Hpk : tw_plate a <> k.
+Hypothesis Hgs : (0 < n_row_ids gs)%nat.
+Hypothesis Hgd : (0 < n_row_ids gd)%nat.
+
+(** nothing but the first two transfers of an instruction draws from a trough *)
+Lemma plate_parts_col_zero wmax i :
+  requested_col_all k col (mix_part a p wmax i ++ serial_part a p i ++ dest_part a i) == 0.
+Proof.
+  pose proof Hpk as Hk. apply Nat.eqb_neq in Hk. apply requested_col_all_zero. intros o Ho.
+  apply in_app_or in Ho. destruct Ho as [Ho|Ho]; [|apply in_app_or in Ho; destruct Ho as [Ho|Ho]].
+  - unfold mix_part in Ho. destruct (needs_mix a p i); [|destruct Ho].
+    apply in_flat_map in Ho. destruct Ho as (r & _ & [Ho|[Ho|[]]]); subst o; [|reflexivity].
+    unfold mix_op. cbn [requested_col]. rewrite Hk. reflexivity.
+  - unfold serial_part in Ho.
+    apply in_flat_map in Ho. destruct Ho as (j & _ & [Ho|[Ho|[]]]); subst o; [|reflexivity].
+    unfold serial_op. cbn [requested_col]. rewrite Hk. reflexivity.
+  - unfold dest_part in Ho. destruct (tw_dest a) as [d|]; [|destruct Ho].
+    destruct Ho as [Ho|[Ho|[]]]; subst o; [|reflexivity].
+    unfold dest_op. cbn [requested_col]. rewrite Hk. reflexivity.
+Qed.
+
+(** what one instruction requests from column [col] of labware [k] *)
+Lemma instr_requested_col wmax i : length (i_vols i) = tw_R a ->
+  requested_col_all k col (instr_ops a p wmax gs gd i) ==
+  (if ((tw_stock a =? k) && (tw_stock_column a =? col))%nat
+   then (if stock_prepared i then inject_Z (Zsum (i_vols i)) else 0) else 0)
+  + (if ((tw_diluent a =? k) && (tw_diluent_column a =? col))%nat
+     then inject_Z (Z.of_nat (tw_R a)) * vm_of p i - inject_Z (Zsum (i_vols i)) else 0).
+Proof.
+  intro HR. rewrite c14_exec_structure, requested_col_all_app.
+  rewrite (requested_col_all_app _ _ (dilute_part a p gd i)), plate_parts_col_zero.
+  assert (E1 : requested_col_all k col (stock_part a gs i) ==
+               if ((tw_stock a =? k) && (tw_stock_column a =? col))%nat
+               then (if stock_prepared i then inject_Z (Zsum (i_vols i)) else 0) else 0).
+  { unfold stock_part, stock_prepared. destruct (i_src i) as [k0|].
+    - rewrite requested_col_all_nil. destruct ((tw_stock a =? k) && (tw_stock_column a =? col))%nat; reflexivity.
+    - rewrite !requested_col_all_cons, requested_col_all_nil. unfold stock_op. cbn [requested_col].
+      destruct (tw_stock a =? k)%nat; cbn [andb]; [|ring].
+      rewrite (trough_transfer_col a gs) by (try assumption; rewrite map_length; exact HR).
+      destruct (tw_stock_column a =? col)%nat; [rewrite Qsum_inject|]; ring. }
+  assert (E2 : requested_col_all k col (dilute_part a p gd i) ==
+               if ((tw_diluent a =? k) && (tw_diluent_column a =? col))%nat
+               then inject_Z (Z.of_nat (tw_R a)) * vm_of p i - inject_Z (Zsum (i_vols i)) else 0).
+  { unfold dilute_part. rewrite !requested_col_all_cons, requested_col_all_nil. unfold dilute_op. cbn [requested_col].
+    destruct (tw_diluent a =? k)%nat; cbn [andb]; [|ring].
+    rewrite (trough_transfer_col a gd) by (try assumption; rewrite !map_length; exact HR).
+    destruct (tw_diluent_column a =? col)%nat; [rewrite Qsum_fill, HR|]; ring. }
+  rewrite E1, E2. ring.
+Qed.
+
+End RequestedCol.
+
+(** the amount of diluent the plan needs: R * sum vmax - (all planned volumes) *)
+Lemma diluent_amount_facts ideal stock vmax mt p R :
+  plan_core ideal stock vmax mt = Ok p ->
+  inject_Z (Z.of_nat R) * Qsum vmax - inject_Z (Zsum (all_vols p))
+    == v_diluent R p - inject_Z (Zsum (serial_vols_of p)) /\
+  (0 <= mt -> inject_Z (Z.of_nat R) * Qsum vmax - inject_Z (Zsum (all_vols p)) <= v_diluent R p).
+Proof.
+  intro H.
+  assert (Hsplit : Zsum (all_vols p) = (v_stock p + Zsum (serial_vols_of p))%Z).
+  { unfold all_vols, serial_vols_of. rewrite all_vols_split, (c14_v_stock _ _ _ _ _ H). reflexivity. }
+  assert (Hvd : v_diluent R p == inject_Z (Z.of_nat R) * Qsum vmax - inject_Z (v_stock p)).
+  { rewrite c14_v_diluent. destruct (proj1 (c14_complete ideal stock vmax mt) p H) as (Hv & _).
+    rewrite Hv. reflexivity. }
+  split.
+  - rewrite Hvd, Hsplit, inject_Z_plus. ring.
+  - intro Hmt. rewrite Hvd, Hsplit, inject_Z_plus.
+    assert (Hnn : (0 <= Zsum (serial_vols_of p))%Z).
+    { apply Zsum_nonneg. apply Forall_forall. intros v Hv. unfold serial_vols_of in Hv.
+      apply in_concat in Hv. destruct Hv as (vs & Hvs & Hv).
+      apply in_map_iff in Hvs. destruct Hvs as (i & Hi & Hin). subst vs.
+      apply filter_In in Hin. destruct Hin as (Hin & _).
+      pose proof (plan_vols_min _ _ _ _ _ H i v Hin Hv) as Hm.
+      assert (H0 : 0 <= inject_Z v) by lra. rewrite <- (Zle_Qle 0) in H0. exact H0. }
+    rewrite (Zle_Qle 0) in Hnn. change (inject_Z 0) with 0 in Hnn. lra.
+Qed.
+
+(** what the whole plan requests from column [col] of labware [k] (not the plate) *)
+Lemma plan_requested_col ideal stock vmax mt p R a gs gd wms k col :
+  plan_core ideal stock vmax mt = Ok p -> Forall (fun c => length c = R) ideal ->
+  length vmax = length ideal -> tw_R a = R -> tw_plate a <> k ->
+  (0 < n_row_ids gs)%nat -> (0 < n_row_ids gd)%nat -> length wms = length (dp_instr p) ->
+  requested_col_all k col (plan_ops a p gs gd (dp_instr p) wms) ==
+  (if ((tw_stock a =? k) && (tw_stock_column a =? col))%nat then inject_Z (v_stock p) else 0)
+  + (if ((tw_diluent a =? k) && (tw_diluent_column a =? col))%nat
+     then inject_Z (Z.of_nat R) * Qsum vmax - inject_Z (Zsum (all_vols p)) else 0).
+Proof.
+  intros H Hrect Lv HR Hpk Hgs Hgd Lw.
+  assert (Hlen : forall i, In i (dp_instr p) -> length (i_vols i) = tw_R a).
+  { intros i Hi. destruct (plan_instr_nth _ _ _ _ _ _ H Hi) as (c & Hc & Hn & _).
+    destruct (c14_shape _ _ _ _ _ _ H Hrect c Hc) as (Lc & _). rewrite Hn in Lc. rewrite HR. exact Lc. }
+  unfold plan_ops. rewrite requested_col_all_flat_map.
+  set (bs := ((tw_stock a =? k) && (tw_stock_column a =? col))%nat).
+  set (bd := ((tw_diluent a =? k) && (tw_diluent_column a =? col))%nat).
+  rewrite (Qsum_map_ext _ (fun iw =>
+             (if bs then (if stock_prepared (fst iw) then inject_Z (Zsum (i_vols (fst iw))) else 0) else 0)
+             + (if bd then inject_Z (Z.of_nat (tw_R a)) * vm_of p (fst iw) - inject_Z (Zsum (i_vols (fst iw))) else 0))).
+  - rewrite Qsum_plus, !Qsum_if_const.
+    rewrite (map_fst_zip_len (fun i => if stock_prepared i then inject_Z (Zsum (i_vols i)) else 0)) by exact Lw.
+    rewrite (map_fst_zip_len (fun i => inject_Z (Z.of_nat (tw_R a)) * vm_of p i - inject_Z (Zsum (i_vols i))))
+      by exact Lw.
+    assert (E1 : Qsum (map (fun i => if stock_prepared i then inject_Z (Zsum (i_vols i)) else 0) (dp_instr p))
+                 == inject_Z (v_stock p)).
+    { rewrite stock_total, (c14_v_stock _ _ _ _ _ H). reflexivity. }
+    assert (E2 : Qsum (map (fun i => inject_Z (Z.of_nat (tw_R a)) * vm_of p i - inject_Z (Zsum (i_vols i)))
+                           (dp_instr p))
+                 == inject_Z (Z.of_nat R) * Qsum vmax - inject_Z (Zsum (all_vols p))).
+    { rewrite diluent_total, (vm_of_plan _ _ _ _ _ H Lv), HR. reflexivity. }
+    destruct bs; destruct bd; rewrite ?E1, ?E2; reflexivity.
+  - intros iw Hiw. cbn [fst snd]. apply instr_requested_col; try assumption.
+    apply Hlen. exact (zip_In_fst _ _ _ Hiw).
+Qed.
+
+(** C14_exec_requested, column-wise: valid when stock and diluent are two labware OR two columns of one *)
+Theorem c14_exec_requested_columns ideal stock vmax mt p R a gs gd wms :
+  plan_core ideal stock vmax mt = Ok p -> Forall (fun c => length c = R) ideal ->
+  length vmax = length ideal -> tw_R a = R ->
+  tw_plate a <> tw_stock a -> tw_plate a <> tw_diluent a ->
+  (tw_stock a <> tw_diluent a \/ tw_stock_column a <> tw_diluent_column a) ->
+  (0 < n_row_ids gs)%nat -> (0 < n_row_ids gd)%nat ->
+  length wms = length (dp_instr p) ->
+  requested_col_all (tw_stock a) (tw_stock_column a) (plan_ops a p gs gd (dp_instr p) wms)
+    == inject_Z (v_stock p) /\
+  requested_col_all (tw_diluent a) (tw_diluent_column a) (plan_ops a p gs gd (dp_instr p) wms)
+    == inject_Z (Z.of_nat R) * Qsum vmax - inject_Z (Zsum (all_vols p)) /\
+  requested_col_all (tw_diluent a) (tw_diluent_column a) (plan_ops a p gs gd (dp_instr p) wms)
+    == v_diluent R p - inject_Z (Zsum (serial_vols_of p)) /\
+  (0 <= mt -> requested_col_all (tw_diluent a) (tw_diluent_column a) (plan_ops a p gs gd (dp_instr p) wms)
+              <= v_diluent R p).
+Proof.
+  intros H Hrect Lv HR Hps Hpd Hsd Hgs Hgd Lw.
+  destruct (diluent_amount_facts ideal stock vmax mt p R H) as (F1 & F2).
+  assert (Eds : ((tw_diluent a =? tw_stock a) && (tw_diluent_column a =? tw_stock_column a))%nat = false).
+  { destruct (Nat.eqb_spec (tw_diluent a) (tw_stock a)) as [E1|N1]; [|reflexivity].
+    destruct (Nat.eqb_spec (tw_diluent_column a) (tw_stock_column a)) as [E2|N2]; [|reflexivity].
+    exfalso. destruct Hsd as [Hn|Hn]; apply Hn; symmetry; assumption. }
+  assert (Esd : ((tw_stock a =? tw_diluent a) && (tw_stock_column a =? tw_diluent_column a))%nat = false).
+  { rewrite (Nat.eqb_sym (tw_stock a)), (Nat.eqb_sym (tw_stock_column a)). exact Eds. }
+  assert (Hst : requested_col_all (tw_stock a) (tw_stock_column a) (plan_ops a p gs gd (dp_instr p) wms)
+                == inject_Z (v_stock p)).
+  { rewrite (plan_requested_col ideal stock vmax mt p R a gs gd wms _ _ H Hrect Lv HR Hps Hgs Hgd Lw).
+    rewrite !Nat.eqb_refl, Eds. cbn [andb]. ring. }
+  assert (Hdi : requested_col_all (tw_diluent a) (tw_diluent_column a) (plan_ops a p gs gd (dp_instr p) wms)
+                == inject_Z (Z.of_nat R) * Qsum vmax - inject_Z (Zsum (all_vols p))).
+  { rewrite (plan_requested_col ideal stock vmax mt p R a gs gd wms _ _ H Hrect Lv HR Hpd Hgs Hgd Lw).
+    rewrite !Nat.eqb_refl, Esd. cbn [andb]. ring. }
+  split; [exact Hst|]. split; [exact Hdi|]. split.
+  - rewrite Hdi. exact F1.
+  - intro Hmt. rewrite Hdi. exact (F2 Hmt).
+Qed.
+
+(* ------------------------------------------------------------------------------------------ *)
+(** * what a list of transfers does to a trough: by real well = column *)
+
+Lemma trough_idx_in_column T v w i :
+  g_vrows (lw_geom T) = Some v -> lw_index T w <> None -> idx_is T i w = in_column i w.
+Proof.
+  intros Hv Hne. unfold idx_is. unfold lw_index in *.
+  destruct (well_index (lw_geom T) w) as [rc|] eqn:E; [|congruence].
+  destruct (well_index_domain _ _ _ E) as (r & c & Hr & Hc & Hw & Hrc). subst w rc.
+  rewrite Hv. unfold flat_index. cbn [fst snd].
+  pose proof (n_row_ids_le (lw_geom T)) as Hle. rewrite in_column_well_id by lia.
+  rewrite Nat.mul_0_l, Nat.add_0_l. reflexivity.
+Qed.
+
+(** labware [kt] is never a destination *)
+Definition not_into (kt : nat) (o : op) : Prop :=
+  match o with OTransfer _ _ kd _ _ _ _ _ _ => kd <> kt | _ => True end.
+
+Lemma trough_delta_op_col lws kt T v o i :
+  nth_error lws kt = Some T -> g_vrows (lw_geom T) = Some v -> not_into kt o -> op_args_ok lws o ->
+  op_delta T kt o i == - requested_col kt i o.
+Proof.
+  intros HT Hv Hd Hok. destruct o; try (cbn [op_delta requested_col]; ring).
+  cbn [op_delta requested_col not_into op_args_ok] in *.
+  destruct Hok as (L1 & L2 & L3 & Ls & Ld & HLs & HLd & Hrs & Hrd).
+  assert (E : (kt =? kd)%nat = false) by (apply Nat.eqb_neq; congruence). rewrite E.
+  rewrite (Nat.eqb_sym kt ks).
+  destruct (Nat.eqb_spec ks kt) as [->|Hne]; [|ring].
+  rewrite HT in HLs. injection HLs as <-.
+  unfold column_total. rewrite well_out_gsum.
+  rewrite (gsum_ext _ (fun sd => in_column i (fst sd))); [ring|].
+  intros t Ht. cbn beta. apply (trough_idx_in_column T v); [exact Hv|]. apply Hrs.
+  unfold t_triples in Ht. destruct t as [[x y] vv]. apply zip_In in Ht. destruct Ht as [Ht _].
+  apply zip_In in Ht. exact (proj1 Ht).
+Qed.
+
+Lemma trough_delta_ops_col lws kt T v i ops :
+  nth_error lws kt = Some T -> g_vrows (lw_geom T) = Some v ->
+  Forall (not_into kt) ops -> Forall (op_args_ok lws) ops ->
+  ops_delta T kt ops i == - requested_col_all kt i ops.
+Proof.
+  intros HT Hv Hd Hok. induction ops as [|o ops IH].
+  - rewrite ops_delta_nil, requested_col_all_nil. ring.
+  - inversion Hd as [|o1 l1 Hd1 Hd2]; subst o1 l1. inversion Hok as [|o2 l2 Hok1 Hok2]; subst o2 l2.
+    rewrite ops_delta_cons, (IH Hd2 Hok2), (trough_delta_op_col lws kt T v o i HT Hv Hd1 Hok1),
+      requested_col_all_cons. ring.
+Qed.
+
+Lemma plan_ops_not_into a p gs gd is wms kt :
+  tw_plate a <> kt -> (forall d, tw_dest a = Some d -> d <> kt) ->
+  Forall (not_into kt) (plan_ops a p gs gd is wms).
+Proof.
+  intros Hp Hdk. apply Forall_forall. intros o Ho.
+  destruct (plan_ops_In _ _ _ _ _ _ _ Ho) as (x & wm & _ & Hin).
+  destruct (instr_ops_In _ _ _ _ _ _ _ Hin) as [->|[->|[->|[(ws & ->)|[(j & _ & ->)|(d & Hd & ->)]]]]];
+    cbn [not_into stock_op dilute_op mix_op serial_op dest_op]; try exact I; try exact Hp.
+  exact (Hdk d Hd).
+Qed.
+
 Lemma plate_total ideal stock vmax mt p a r c :
   plan_core ideal stock vmax mt = Ok p -> (c < length ideal)%nat ->
   Qsum (map (instr_plate_delta a p r c) (dp_instr p)) ==
@@ -1081,7 +1377,7 @@ Theorem c14_exec_volumes ideal stock vmax mt p R a C s s' P St D :
   plan_core ideal stock vmax mt = Ok p -> Forall (fun col => length col = R) ideal ->
   length vmax = length ideal -> tw_R a = R ->
   to_worklist s a p C = (s', None) -> wf_state s -> 0 < w_max (st_wl s) ->
-  tw_plate a <> tw_stock a -> tw_plate a <> tw_diluent a -> tw_stock a <> tw_diluent a ->
+  tw_plate a <> tw_stock a -> tw_plate a <> tw_diluent a ->
   (forall d, tw_dest a = Some d -> d <> tw_plate a /\ d <> tw_stock a /\ d <> tw_diluent a) ->
   nth_error (st_lw s) (tw_plate a) = Some P -> nth_error (st_lw s) (tw_stock a) = Some St ->
   nth_error (st_lw s) (tw_diluent a) = Some D ->
@@ -1091,10 +1387,14 @@ Theorem c14_exec_volumes ideal stock vmax mt p R a C s s' P St D :
     nth_error (st_lw s') (tw_plate a) = Some P' /\ nth_error (st_lw s') (tw_stock a) = Some St' /\
     nth_error (st_lw s') (tw_diluent a) = Some D' /\
     lw_geom P' = lw_geom P /\ lw_geom St' = lw_geom St /\ lw_geom D' = lw_geom D /\
-    (forall i, vol_at St' i == vol_at St i - (if (i =? tw_stock_column a)%nat then inject_Z (v_stock p) else 0)) /\
-    (forall i, vol_at D' i == vol_at D i -
-       (if (i =? tw_diluent_column a)%nat
-        then inject_Z (Z.of_nat R) * Qsum vmax - inject_Z (Zsum (all_vols p)) else 0)) /\
+    (forall i, vol_at St' i == vol_at St i
+       - (if (i =? tw_stock_column a)%nat then inject_Z (v_stock p) else 0)
+       - (if ((tw_diluent a =? tw_stock a) && (i =? tw_diluent_column a))%nat
+          then inject_Z (Z.of_nat R) * Qsum vmax - inject_Z (Zsum (all_vols p)) else 0)) /\
+    (forall i, vol_at D' i == vol_at D i
+       - (if (i =? tw_diluent_column a)%nat
+          then inject_Z (Z.of_nat R) * Qsum vmax - inject_Z (Zsum (all_vols p)) else 0)
+       - (if ((tw_stock a =? tw_diluent a) && (i =? tw_stock_column a))%nat then inject_Z (v_stock p) else 0)) /\
     (0 <= mt -> inject_Z (Z.of_nat R) * Qsum vmax - inject_Z (Zsum (all_vols p)) <= v_diluent R p) /\
     (forall r c, (r < R)%nat -> (c < length ideal)%nat ->
        lw_index P (well_id r c) = Some (r * g_cols (lw_geom P) + c)%nat /\
@@ -1102,7 +1402,7 @@ Theorem c14_exec_volumes ideal stock vmax mt p R a C s s' P St D :
          nth c vmax 0 - inject_Z (drawn p c r)
          - (match tw_dest a with Some _ => tw_v_destination a | None => 0 end)).
 Proof.
-  intros Hplan Hrect Lv HR Hrun Hwf Hm Hps Hpd Hsd Hdest HP HSt HD HPt Hempty.
+  intros Hplan Hrect Lv HR Hrun Hwf Hm Hps Hpd Hdest HP HSt HD HPt Hempty.
   (* the checks of to_worklist *)
   unfold to_worklist in Hrun. rewrite HP, HSt, HD in Hrun.
   destruct ((n_row_ids (lw_geom P) <? tw_R a)%nat || (g_cols (lw_geom P) <? C)%nat) eqn:E1; [discriminate|].
@@ -1121,9 +1421,13 @@ Proof.
   set (ops := plan_ops a p (lw_geom St) (lw_geom D) (dp_instr p) wms) in *.
   destruct (run_ops_ledger ops _ _ (plan_ops_tc _ _ _ _ _ _) Hops Hwf Hm)
     as (_ & _ & Hoks & _ & Hled).
-  destruct (c14_exec_requested ideal stock vmax mt p R a (lw_geom St) (lw_geom D) wms
-              Hplan Hrect Lv HR Hps Hpd Hsd Lw) as (Hrs & Hrd & _ & Hle).
-  fold ops in Hrs, Hrd, Hle.
+  assert (HnS : (0 < n_row_ids (lw_geom St))%nat).
+  { destruct (n_row_ids_trough _ _ (wf_geom_nth _ _ _ Hwf HSt) EvS) as (En & Hn1 & _). lia. }
+  assert (HnD : (0 < n_row_ids (lw_geom D))%nat).
+  { destruct (n_row_ids_trough _ _ (wf_geom_nth _ _ _ Hwf HD) EvD) as (En & Hn1 & _). lia. }
+  pose proof (fun k col Hk => plan_requested_col ideal stock vmax mt p R a (lw_geom St) (lw_geom D) wms k col
+                                Hplan Hrect Lv HR Hk HnS HnD Lw) as Hreq.
+  fold ops in Hreq.
   destruct (Hled _ _ HP) as (P' & HP' & HgP & HvP).
   destruct (Hled _ _ HSt) as (St' & HSt' & HgS & HvS).
   destruct (Hled _ _ HD) as (D' & HD' & HgD & HvD).
@@ -1132,14 +1436,18 @@ Proof.
   split; [exact HgP|]. split; [exact HgS|]. split; [exact HgD|].
   split; [|split; [|split]].
   - intro i. rewrite HvS.
-    rewrite (trough_delta_ops (st_lw s) (tw_stock a) St vs (tw_stock_column a) i ops HSt EvS);
-      [|apply plan_ops_stock_column; [assumption|assumption|intros d Hd; exact (proj1 (proj2 (Hdest d Hd)))]|exact Hoks].
-    destruct (i =? tw_stock_column a)%nat; [rewrite Hrs|]; ring.
+    rewrite (trough_delta_ops_col (st_lw s) (tw_stock a) St vs i ops HSt EvS);
+      [|apply plan_ops_not_into; [exact Hps|intros d Hd; exact (proj1 (proj2 (Hdest d Hd)))]|exact Hoks].
+    rewrite (Hreq (tw_stock a) i Hps), Nat.eqb_refl, (Nat.eqb_sym (tw_stock_column a) i),
+      (Nat.eqb_sym (tw_diluent_column a) i). cbn [andb].
+    destruct (i =? tw_stock_column a)%nat; destruct ((tw_diluent a =? tw_stock a) && (i =? tw_diluent_column a))%nat; ring.
   - intro i. rewrite HvD.
-    rewrite (trough_delta_ops (st_lw s) (tw_diluent a) D vd (tw_diluent_column a) i ops HD EvD);
-      [|apply plan_ops_diluent_column; [assumption|assumption|intros d Hd; exact (proj2 (proj2 (Hdest d Hd)))]|exact Hoks].
-    destruct (i =? tw_diluent_column a)%nat; [rewrite Hrd|]; ring.
-  - intro Hmt. rewrite <- Hrd. exact (Hle Hmt).
+    rewrite (trough_delta_ops_col (st_lw s) (tw_diluent a) D vd i ops HD EvD);
+      [|apply plan_ops_not_into; [exact Hpd|intros d Hd; exact (proj2 (proj2 (Hdest d Hd)))]|exact Hoks].
+    rewrite (Hreq (tw_diluent a) i Hpd), Nat.eqb_refl, (Nat.eqb_sym (tw_stock_column a) i),
+      (Nat.eqb_sym (tw_diluent_column a) i). cbn [andb].
+    destruct (i =? tw_diluent_column a)%nat; destruct ((tw_stock a =? tw_diluent a) && (i =? tw_stock_column a))%nat; ring.
+  - exact (proj2 (diluent_amount_facts ideal stock vmax mt p R Hplan)).
   - intros r c Hr Hc.
     pose proof (n_row_ids_le (lw_geom P)) as Hle26.
     assert (HR' : (tw_R a <= n_row_ids (lw_geom P))%nat) by exact E1.
@@ -1179,6 +1487,147 @@ Proof.
       apply (instr_ops_plate a p (lw_geom St) (lw_geom D) P r c EvP HR' Hr' Hcg Hps Hpd
                (fun d Hd => proj1 (Hdest d Hd)) HgS0 HgD0 wm x (Hlenx x Hx) (Hcolx x Hx)).
       intros j Hj. apply filter_In in Hj. destruct Hj as (Hj & _). split; [exact (Hlenx j Hj)|exact (Hcolx j Hj)].
+Qed.
+
+(* ------------------------------------------------------------------------------------------ *)
+(** * the destination plate: volumes *)
+
+Lemma op_delta_other L j ks sw kd dw vs lab ws pb kw i :
+  j <> ks -> j <> kd -> op_delta L j (OTransfer ks sw kd dw vs lab ws pb kw) i == 0.
+Proof.
+  intros H1 H2. cbn [op_delta]. apply Nat.eqb_neq in H1. apply Nat.eqb_neq in H2. rewrite H1, H2. ring.
+Qed.
+
+Lemma ops_delta_zero L j ops i : (forall o, In o ops -> op_delta L j o i == 0) -> ops_delta L j ops i == 0.
+Proof. intro H. unfold ops_delta. apply Qsum_zero. exact H. Qed.
+
+(** everything an instruction does before the transfer to the destination plate leaves labware [d] alone *)
+Lemma pre_dest_untouched a p gs gd d wm x o :
+  d <> tw_plate a -> d <> tw_stock a -> d <> tw_diluent a ->
+  In o (stock_part a gs x ++ dilute_part a p gd x ++ mix_part a p wm x ++ serial_part a p x) ->
+  o = OCommit \/
+  exists ks sw kd dw vs lab ws pb kw, o = OTransfer ks sw kd dw vs lab ws pb kw /\ d <> ks /\ d <> kd.
+Proof.
+  intros Hdp Hds Hdd H. apply in_app_or in H. destruct H as [H|H].
+  { unfold stock_part in H. destruct (i_src x); [destruct H|].
+    destruct H as [H|[H|[]]]; subst o; [right|left; reflexivity].
+    unfold stock_op. do 9 eexists. split; [reflexivity|]. split; assumption. }
+  apply in_app_or in H. destruct H as [H|H].
+  { destruct H as [H|[H|[]]]; subst o; [right|left; reflexivity].
+    unfold dilute_op. do 9 eexists. split; [reflexivity|]. split; assumption. }
+  apply in_app_or in H. destruct H as [H|H].
+  { unfold mix_part in H. destruct (needs_mix a p x); [|destruct H].
+    apply in_flat_map in H. destruct H as (k0 & _ & [H|[H|[]]]); subst o; [right|left; reflexivity].
+    unfold mix_op. do 9 eexists. split; [reflexivity|]. split; assumption. }
+  unfold serial_part in H. apply in_flat_map in H. destruct H as (j & _ & [H|[H|[]]]); subst o; [right|left; reflexivity].
+  unfold serial_op. do 9 eexists. split; [reflexivity|]. split; assumption.
+Qed.
+
+Lemma instr_ops_split a p wm gs gd x :
+  instr_ops a p wm gs gd x =
+  ((stock_part a gs x ++ dilute_part a p gd x ++ mix_part a p wm x ++ serial_part a p x) ++ dest_part a x)%list.
+Proof. rewrite c14_exec_structure, <- !app_assoc. reflexivity. Qed.
+
+Section InstrDest.
+Variables (a : twl_args) (p : dplan) (gs gd : geom) (DP : labware) (d r c : nat).
+Hypothesis HDv : g_vrows (lw_geom DP) = None.
+Hypothesis HDR : (tw_R a <= n_row_ids (lw_geom DP))%nat.
+Hypothesis Hr : (r < tw_R a)%nat.
+Hypothesis Hc : (c < g_cols (lw_geom DP))%nat.
+Hypothesis Hd : tw_dest a = Some d.
+Hypothesis Hdp : d <> tw_plate a.
+Hypothesis Hds : d <> tw_stock a.
+Hypothesis Hdd : d <> tw_diluent a.
+
+(** net change of well (r, c) of the destination plate by the operations of instruction [x] *)
+Lemma instr_ops_dest wm x : (i_col x < g_cols (lw_geom DP))%nat ->
+  ops_delta DP d (instr_ops a p wm gs gd x) (pidx DP r c) ==
+  if (i_col x =? c)%nat then tw_v_destination a else 0.
+Proof.
+  intro Hcx. rewrite instr_ops_split, ops_delta_app.
+  rewrite (ops_delta_zero DP d (stock_part a gs x ++ dilute_part a p gd x ++ mix_part a p wm x ++ serial_part a p x)).
+  2: { intros o Ho.
+       destruct (pre_dest_untouched a p gs gd d wm x o Hdp Hds Hdd Ho)
+         as [->|(ks & sw & kd & dw & vs & lab & ws & pb & kw & -> & H1 & H2)]; [reflexivity|].
+       apply op_delta_other; assumption. }
+  unfold dest_part. rewrite Hd. rewrite !ops_delta_cons, ops_delta_nil.
+  unfold dest_op, col_wells. cbn [op_delta]. rewrite Nat.eqb_refl.
+  assert (E : (d =? tw_plate a)%nat = false) by (apply Nat.eqb_neq; exact Hdp). rewrite E.
+  rewrite (t_triples_A1_A0 _ _ _ (tw_R a)); [|lia|apply column_wells_length|apply column_wells_length].
+  rewrite well_in_plate_col;
+    [|assumption|assumption|assumption|assumption|apply column_wells_length|apply repeat_length|exact Hcx].
+  rewrite nth_repeat_lt by exact Hr. destruct (i_col x =? c)%nat; ring.
+Qed.
+
+End InstrDest.
+
+(** every column of the plan exists on the destination plate: its transfer there was accepted *)
+Lemma plan_cols_on_dest a p gs gd wms lws d DP :
+  length wms = length (dp_instr p) -> (1 <= tw_R a)%nat -> tw_dest a = Some d ->
+  Forall (op_args_ok lws) (plan_ops a p gs gd (dp_instr p) wms) ->
+  nth_error lws d = Some DP ->
+  forall x, In x (dp_instr p) -> (i_col x < g_cols (lw_geom DP))%nat.
+Proof.
+  intros Lw HR1 Hd Hoks HDP x Hx. destruct (zip_In_l (dp_instr p) wms x Lw Hx) as (wm & Hin).
+  assert (Hop : In (dest_op a x d) (plan_ops a p gs gd (dp_instr p) wms)).
+  { unfold plan_ops. apply in_flat_map. exists (x, wm). split; [exact Hin|].
+    cbn [fst snd]. rewrite instr_ops_split. apply in_or_app. right.
+    unfold dest_part. rewrite Hd. left. reflexivity. }
+  rewrite Forall_forall in Hoks. specialize (Hoks _ Hop).
+  unfold dest_op in Hoks. cbn [op_args_ok] in Hoks.
+  destruct Hoks as (_ & _ & _ & Ls & Ld & _ & HLd & _ & Hres). rewrite HDP in HLd. injection HLd as <-.
+  apply (lw_index_col_bound DP 0); [lia|]. apply Hres.
+  unfold t_dst, col_wells. cbn [flattenF]. apply In_broadcast_ge.
+  - unfold column_wells. apply in_map_iff. exists 0%nat. split; [reflexivity|]. apply in_seq. lia.
+  - rewrite column_wells_length. unfold t_n. cbn [flattenF]. rewrite column_wells_length. lia.
+Qed.
+
+(** after [to_worklist] with a destination plate [d] (not a trough, different from the three other
+    labware): every well (r, c) of the destination plate received exactly [v_destination] *)
+Theorem c14_exec_destination_volumes ideal stock vmax mt p R a C s s' d DP :
+  plan_core ideal stock vmax mt = Ok p -> Forall (fun col => length col = R) ideal -> tw_R a = R ->
+  to_worklist s a p C = (s', None) -> wf_state s -> 0 < w_max (st_wl s) ->
+  tw_dest a = Some d -> d <> tw_plate a -> d <> tw_stock a -> d <> tw_diluent a ->
+  nth_error (st_lw s) d = Some DP -> is_trough (lw_geom DP) = false ->
+  exists DP', nth_error (st_lw s') d = Some DP' /\ lw_geom DP' = lw_geom DP /\
+    forall r c, (r < R)%nat -> (c < length ideal)%nat ->
+      lw_index DP (well_id r c) = Some (r * g_cols (lw_geom DP) + c)%nat /\
+      vol_at DP' (r * g_cols (lw_geom DP) + c) ==
+        vol_at DP (r * g_cols (lw_geom DP) + c) + tw_v_destination a.
+Proof.
+  intros Hplan Hrect HR Hrun Hwf Hm Hd Hdp Hds Hdd HDP HDt.
+  unfold to_worklist in Hrun.
+  destruct (nth_error (st_lw s) (tw_plate a)) as [P|] eqn:HP; [|discriminate].
+  destruct (nth_error (st_lw s) (tw_stock a)) as [St|] eqn:HSt; [|discriminate].
+  destruct (nth_error (st_lw s) (tw_diluent a)) as [D|] eqn:HD; [|discriminate].
+  destruct ((n_row_ids (lw_geom P) <? tw_R a)%nat || (g_cols (lw_geom P) <? C)%nat) eqn:E1; [discriminate|].
+  rewrite Hd in Hrun. cbv beta iota in Hrun. rewrite HDP in Hrun.
+  destruct ((n_row_ids (lw_geom DP) <? tw_R a)%nat || (g_cols (lw_geom DP) <? C)%nat) eqn:E2; [discriminate|].
+  destruct (negb (is_trough (lw_geom St)) || negb (is_trough (lw_geom D))) eqn:E3; [discriminate|].
+  apply orb_false_iff in E2. destruct E2 as [E2 _]. apply Nat.ltb_ge in E2.
+  unfold is_trough in HDt. destruct (g_vrows (lw_geom DP)) as [vp|] eqn:EvP; [discriminate|]. clear HDt.
+  destruct (run_instrs_ops _ _ _ _ _ _ _ Hrun) as (wms & Lw & Hops).
+  set (ops := plan_ops a p (lw_geom St) (lw_geom D) (dp_instr p) wms) in *.
+  destruct (run_ops_ledger ops _ _ (plan_ops_tc _ _ _ _ _ _) Hops Hwf Hm) as (_ & _ & Hoks & _ & Hled).
+  destruct (Hled _ _ HDP) as (DP' & HDP' & HgD & HvD).
+  exists DP'. split; [exact HDP'|]. split; [exact HgD|].
+  intros r c Hr Hc.
+  assert (Hr' : (r < tw_R a)%nat) by (rewrite HR; exact Hr).
+  destruct (proj1 (c14_complete ideal stock vmax mt) p Hplan) as (_ & L1 & _ & _ & Hcol).
+  assert (Hcol' : forall m, (m < length (dp_instr p))%nat -> i_col (nth m (dp_instr p) dinstr) = m).
+  { intros m Hm'. apply Hcol. rewrite <- L1. exact Hm'. }
+  assert (Hc' : (c < length (dp_instr p))%nat) by (rewrite L1; exact Hc).
+  pose proof (plan_cols_on_dest a p _ _ wms _ d DP Lw ltac:(lia) Hd Hoks HDP) as Hcolx.
+  assert (Hcg : (c < g_cols (lw_geom DP))%nat).
+  { rewrite <- (Hcol c Hc). apply Hcolx. apply nth_In. exact Hc'. }
+  pose proof (n_row_ids_le (lw_geom DP)) as Hle26.
+  split; [apply plate_lw_index; [exact EvP|lia|exact Hcg]|].
+  rewrite HvD. unfold ops, plan_ops. rewrite ops_delta_flat_map.
+  rewrite (Qsum_map_ext _ (fun iw => if (i_col (fst iw) =? c)%nat then tw_v_destination a else 0)).
+  - rewrite (map_fst_zip_len (fun x => if (i_col x =? c)%nat then tw_v_destination a else 0)) by exact Lw.
+    rewrite (Qsum_by_col (dp_instr p) (fun _ => tw_v_destination a) c Hcol' Hc'). reflexivity.
+  - intros [x wm] Hin. cbn [fst snd]. pose proof (zip_In_fst _ _ _ Hin) as Hx. cbn [fst] in Hx.
+    exact (instr_ops_dest a p (lw_geom St) (lw_geom D) DP d r c EvP E2 Hr' Hcg Hd Hdp Hds Hdd wm x (Hcolx x Hx)).
 Qed.
 
 (* ------------------------------------------------------------------------------------------ *)
@@ -1642,7 +2091,6 @@ Hypothesis Hrect : Forall (fun col => length col = tw_R a) ideal.
 Hypothesis Lv : length vmax = length ideal.
 Hypothesis Hps : tw_plate a <> tw_stock a.
 Hypothesis Hpd : tw_plate a <> tw_diluent a.
-Hypothesis Hsd : tw_stock a <> tw_diluent a.
 Hypothesis Hdest : forall d, tw_dest a = Some d -> d <> tw_plate a /\ d <> tw_stock a /\ d <> tw_diluent a.
 Hypothesis HPv : g_vrows (lw_geom P0) = None.
 Hypothesis HR : (tw_R a <= n_row_ids (lw_geom P0))%nat.
@@ -2402,6 +2850,38 @@ Proof.
   destruct n as [|n]; [reflexivity|]. cbn [skipn nth]. apply IH. cbn [length] in Hn. lia.
 Qed.
 
+(** the instruction of column [n] advances the invariant *)
+Lemma inv_step s s1 wm n : (n < length ideal)%nat -> ~ nth n vmax 0 == 0 ->
+  run_ops s (instr_ops a p wm gs gd (nth n (dp_instr p) dinstr)) = (s1, None) ->
+  Good s -> Inv s n -> Good s1 /\ Inv s1 (S n).
+Proof.
+  intros Hn Hvmn E1 HG HInv.
+  destruct HInv as (HS & HD & HDone & Hrest).
+  destruct (instr_effect _ _ _ n Hn Hvmn E1 HG HS HD) as (HG1 & HS1 & HD1 & HDn & Hfed & Hsame).
+  { intro Hs. pose proof (Hrest n (le_n n) Hn) as Hr. rewrite Hs in Hr. exact Hr. }
+  { intro Hs. pose proof (Hrest n (le_n n) Hn) as Hr. destruct (psrc p n) as [k0|] eqn:Es; [|congruence].
+    pose proof (psrc_lt n k0 Hn Es) as Hk. apply Nat.ltb_lt in Hk. rewrite Hk in Hr. exact Hr. }
+  { intros c Hc Hs. pose proof (psrc_lt c n Hc Hs) as Hlt.
+    pose proof (Hrest c ltac:(lia) Hc) as Hr. rewrite Hs, Nat.ltb_irrefl in Hr. exact Hr. }
+  split; [exact HG1|].
+  split; [exact HS1|]. split; [exact HD1|]. split.
+  + intros c Hc Hcl. destruct (Nat.eq_dec c n) as [->|Hne]; [exact HDn|].
+    apply (Same_Done s s1 c); [|apply HDone; [lia|exact Hcl]].
+    apply Hsame; [exact Hcl|exact Hne|]. intro Hs. pose proof (psrc_lt c n Hcl Hs). lia.
+  + intros c Hc Hcl. pose proof (Hrest c ltac:(lia) Hcl) as Hr.
+    destruct (psrc p c) as [k0|] eqn:Es.
+    * destruct (Nat.eq_dec k0 n) as [->|Hkn].
+      -- assert (E : (n <? S n)%nat = true) by (apply Nat.ltb_lt; lia). rewrite E. exact (Hfed c Hcl Es).
+      -- assert (Hss : Same s s1 c).
+         { apply Hsame; [exact Hcl|lia|]. intro E. rewrite Es in E. injection E as E. exact (Hkn E). }
+         destruct (k0 <? n)%nat eqn:Ek.
+         ++ apply Nat.ltb_lt in Ek. assert (E : (k0 <? S n)%nat = true) by (apply Nat.ltb_lt; lia).
+            rewrite E. exact (Same_Fed _ _ c Hss Hr).
+         ++ apply Nat.ltb_ge in Ek. assert (E : (k0 <? S n)%nat = false) by (apply Nat.ltb_ge; lia).
+            rewrite E. exact (Same_Empty _ _ c Hss Hr).
+    * apply (Same_Empty s s1 c); [|exact Hr]. apply Hsame; [exact Hcl|lia|]. rewrite Es. discriminate.
+Qed.
+
 Lemma plan_effect : forall m n wms s s',
   (n + m = length ideal)%nat -> length wms = m ->
   (forall c, (c < length ideal)%nat -> ~ nth c vmax 0 == 0) ->
@@ -2419,31 +2899,237 @@ Proof.
     unfold plan_ops in H. cbn [zip flat_map fst snd] in H. fold (plan_ops a p gs gd (skipn (S n) (dp_instr p)) wms) in H.
     rewrite run_ops_app in H.
     destruct (run_ops s (instr_ops a p wm gs gd (nth n (dp_instr p) dinstr))) as [s1 [e|]] eqn:E1; [discriminate|].
-    destruct HInv as (HS & HD & HDone & Hrest).
-    destruct (instr_effect _ _ _ n Hn (Hvm n Hn) E1 HG HS HD) as (HG1 & HS1 & HD1 & HDn & Hfed & Hsame).
-    { intro Hs. pose proof (Hrest n (le_n n) Hn) as Hr. rewrite Hs in Hr. exact Hr. }
-    { intro Hs. pose proof (Hrest n (le_n n) Hn) as Hr. destruct (psrc p n) as [k0|] eqn:Es; [|congruence].
-      pose proof (psrc_lt n k0 Hn Es) as Hk. apply Nat.ltb_lt in Hk. rewrite Hk in Hr. exact Hr. }
-    { intros c Hc Hs. pose proof (psrc_lt c n Hc Hs) as Hlt.
-      pose proof (Hrest c ltac:(lia) Hc) as Hr. rewrite Hs, Nat.ltb_irrefl in Hr. exact Hr. }
-    apply (IH (S n) wms s1 s'); [lia|lia|exact Hvm|exact H|exact HG1|].
-    split; [exact HS1|]. split; [exact HD1|]. split.
-    + intros c Hc Hcl. destruct (Nat.eq_dec c n) as [->|Hne]; [exact HDn|].
-      apply (Same_Done s s1 c); [|apply HDone; [lia|exact Hcl]].
-      apply Hsame; [exact Hcl|exact Hne|]. intro Hs. pose proof (psrc_lt c n Hcl Hs). lia.
-    + intros c Hc Hcl. pose proof (Hrest c ltac:(lia) Hcl) as Hr.
-      destruct (psrc p c) as [k0|] eqn:Es.
-      * destruct (Nat.eq_dec k0 n) as [->|Hkn].
-        -- assert (E : (n <? S n)%nat = true) by (apply Nat.ltb_lt; lia). rewrite E. exact (Hfed c Hcl Es).
-        -- assert (Hss : Same s s1 c).
-           { apply Hsame; [exact Hcl|lia|]. intro E. rewrite Es in E. injection E as E. exact (Hkn E). }
-           destruct (k0 <? n)%nat eqn:Ek.
-           ++ apply Nat.ltb_lt in Ek. assert (E : (k0 <? S n)%nat = true) by (apply Nat.ltb_lt; lia).
-              rewrite E. exact (Same_Fed _ _ c Hss Hr).
-           ++ apply Nat.ltb_ge in Ek. assert (E : (k0 <? S n)%nat = false) by (apply Nat.ltb_ge; lia).
-              rewrite E. exact (Same_Empty _ _ c Hss Hr).
-      * apply (Same_Empty s s1 c); [|exact Hr]. apply Hsame; [exact Hcl|lia|]. rewrite Es. discriminate.
+    destruct (inv_step _ _ _ n Hn (Hvm n Hn) E1 HG HInv) as (HG1 & HInv1).
+    apply (IH (S n) wms s1 s'); [lia|lia|exact Hvm|exact H|exact HG1|exact HInv1].
 Qed.
+
+(* ---- the destination plate ---- *)
+
+Section Destination.
+Variables (d : nat) (DP0 : labware).
+Hypothesis Hd : tw_dest a = Some d.
+Hypothesis HDv : g_vrows (lw_geom DP0) = None.
+Hypothesis HDR : (tw_R a <= n_row_ids (lw_geom DP0))%nat.
+Hypothesis HDC : (length ideal <= g_cols (lw_geom DP0))%nat.
+Hypothesis Hvdst : 0 < tw_v_destination a.
+
+Let gD := g_cols (lw_geom DP0).
+
+(** volume / fraction of [k] in well (r, c) of the destination plate *)
+Definition DV (s : state) (r c : nat) : Q := lwv s d (r * gD + c).
+Definition DFr (s : state) (r c : nat) : Q := lwf s d (r * gD + c).
+Definition GoodD (s : state) : Prop :=
+  exists DP, nth_error (st_lw s) d = Some DP /\ lw_geom DP = lw_geom DP0.
+
+Lemma d_ne_pl : d <> pl.
+Proof. exact (proj1 (Hdest d Hd)). Qed.
+
+Lemma goodD_transfer s ks sw kd dw vols label ws pb kw s' :
+  transfer s ks sw kd dw vols label ws pb kw = (s', None) -> Good s -> GoodD s -> GoodD s'.
+Proof.
+  intros H (Hwf & _ & Hm & _) (DP & HDP & Hg).
+  destruct (transfer_ledger _ _ _ _ _ _ _ _ _ _ _ H Hwf Hm) as ((_ & Hled) & _).
+  destruct (Hled _ _ HDP) as (DP' & HDP' & Hg' & _). exists DP'. split; [exact HDP'|congruence].
+Qed.
+
+(** a transfer that does not involve labware [d] leaves it alone *)
+Lemma transfer_frame_d s ks sw kd dw vols label ws pb kw s' :
+  transfer s ks sw kd dw vols label ws pb kw = (s', None) -> Good s -> GoodD s -> d <> ks -> d <> kd ->
+  forall i, lwv s' d i == lwv s d i /\ lwf s' d i = lwf s d i.
+Proof.
+  intros H HG (DP & HDP & _) H1 H2 i. split.
+  - rewrite (transfer_lwv _ _ _ _ _ _ _ _ _ _ _ d DP i H HG HDP), op_delta_other by assumption. ring.
+  - apply (transfer_lwf_other _ _ _ _ _ _ _ _ _ _ _ d i H HG H2). eapply nth_error_lt. exact HDP.
+Qed.
+
+Definition untouched (o : op) : Prop :=
+  o = OCommit \/
+  exists ks sw kd dw vl lab ws pb kw, o = OTransfer ks sw kd dw vl lab ws pb kw /\ d <> ks /\ d <> kd.
+
+Lemma run_ops_frame_d ops : forall s s',
+  (forall o, In o ops -> untouched o) -> run_ops s ops = (s', None) -> Good s -> GoodD s ->
+  Good s' /\ GoodD s' /\ forall i, lwv s' d i == lwv s d i /\ lwf s' d i = lwf s d i.
+Proof.
+  induction ops as [|o ops IH]; intros s s' Hu H HG HGD.
+  - cbn [run_ops] in H. injection H as <-. split; [exact HG|]. split; [exact HGD|]. intro i. split; reflexivity.
+  - cbn [run_ops] in H. destruct (step s o) as [s1 [e|]] eqn:E; [discriminate|].
+    assert (Hstep : Good s1 /\ GoodD s1 /\ forall i, lwv s1 d i == lwv s d i /\ lwf s1 d i = lwf s d i).
+    { destruct (Hu o (or_introl eq_refl)) as [->|(ks & sw & kd & dw & vl & lab & ws & pb & kw & -> & H1 & H2)].
+      - destruct (good_commit _ _ E HG) as (HG1 & Hlw). split; [exact HG1|].
+        split; [unfold GoodD; rewrite Hlw; exact HGD|]. intro i. unfold lwv, lwf. rewrite Hlw. split; reflexivity.
+      - cbn [step] in E. split; [exact (good_transfer _ _ _ _ _ _ _ _ _ _ _ E HG)|].
+        split; [exact (goodD_transfer _ _ _ _ _ _ _ _ _ _ _ E HG HGD)|].
+        exact (transfer_frame_d _ _ _ _ _ _ _ _ _ _ _ E HG HGD H1 H2). }
+    destruct Hstep as (HG1 & HGD1 & Hf1).
+    destruct (IH _ _ (fun o' Ho' => Hu o' (or_intror Ho')) H HG1 HGD1) as (HG' & HGD' & Hf').
+    split; [exact HG'|]. split; [exact HGD'|]. intro i.
+    destruct (Hf1 i) as (A1 & A2). destruct (Hf' i) as (B1 & B2).
+    split; [rewrite B1; exact A1|rewrite B2; exact A2].
+Qed.
+
+(** the transfer of column [cx] of the plate to the destination plate, seen from the destination *)
+Lemma dest_effect_d s s' cx lab ws kw :
+  transfer s pl (col_wells a cx) d (col_wells a cx) (A0 (tw_v_destination a)) lab ws "auto" kw = (s', None) ->
+  Good s -> GoodD s -> (cx < g)%nat -> (cx < gD)%nat ->
+  Good s' /\ GoodD s' /\
+  (forall r c, PF s' r c = PF s r c) /\
+  (forall r c, (r < tw_R a)%nat -> (c < gD)%nat ->
+     DV s' r c == DV s r c + (if (cx =? c)%nat then tw_v_destination a else 0)) /\
+  (forall r c, (r < tw_R a)%nat -> (c < gD)%nat -> c <> cx -> DFr s' r c = DFr s r c) /\
+  (forall r, (r < tw_R a)%nat ->
+     DV s' r cx * DFr s' r cx == DV s r cx * DFr s r cx + tw_v_destination a * PF s r cx).
+Proof.
+  intros H HG HGD Hcx HcxD. pose proof HGD as (DP & HDP & HgDP).
+  pose proof HG as (Hwf & HI & Hm & (P & HP & HgP) & _).
+  assert (ET : (1 <= tw_R a)%nat -> t_triples (col_wells a cx) (col_wells a cx) (A0 (tw_v_destination a)) =
+               zip (zip (column_wells (tw_R a) cx) (column_wells (tw_R a) cx)) (repeat (tw_v_destination a) (tw_R a))).
+  { intro H1. unfold col_wells. apply t_triples_A1_A0; [exact H1|apply column_wells_length|apply column_wells_length]. }
+  assert (Hidx : forall r c m cc, (m < tw_R a)%nat -> (cc < gD)%nat -> (c < gD)%nat ->
+                   idx_is DP (r * gD + c) (well_id m cc) = ((m =? r) && (cc =? c))%nat).
+  { intros r c m cc Hm' Hcc Hc. unfold gD in *. rewrite <- HgDP.
+    apply plate_idx_is; rewrite HgDP; [exact HDv|lia|exact Hcc|exact Hc]. }
+  assert (Hwin : forall r c, (r < tw_R a)%nat -> (c < gD)%nat ->
+                   well_in DP (r * gD + c)
+                     (zip (zip (column_wells (tw_R a) cx) (column_wells (tw_R a) cx)) (repeat (tw_v_destination a) (tw_R a)))
+                   == if (cx =? c)%nat then tw_v_destination a else 0).
+  { intros r c Hr Hc.
+    replace (r * gD + c)%nat with (pidx DP r c) by (unfold pidx, gD; rewrite HgDP; reflexivity).
+    unfold gD in *.
+    rewrite (well_in_plate_col DP (tw_R a) r c);
+      [|rewrite HgDP; exact HDv|rewrite HgDP; exact HDR|exact Hr|rewrite HgDP; exact Hc
+       |apply column_wells_length|apply repeat_length|rewrite HgDP; exact HcxD].
+    rewrite nth_repeat_lt by exact Hr. reflexivity. }
+  assert (Epd : (d =? pl)%nat = false) by (apply Nat.eqb_neq; exact d_ne_pl).
+  split; [exact (good_transfer _ _ _ _ _ _ _ _ _ _ _ H HG)|].
+  split; [exact (goodD_transfer _ _ _ _ _ _ _ _ _ _ _ H HG HGD)|].
+  split; [|split; [|split]].
+  - intros r c. unfold PF. apply (transfer_lwf_other _ _ _ _ _ _ _ _ _ _ _ pl _ H HG).
+    + intro E. apply d_ne_pl. symmetry. exact E.
+    + exact (proj1 (good_lengths s HG)).
+  - intros r c Hr Hc. unfold DV. rewrite (transfer_lwv _ _ _ _ _ _ _ _ _ _ _ d DP _ H HG HDP).
+    cbn [op_delta]. rewrite Nat.eqb_refl, Epd, (ET ltac:(lia)), (Hwin r c Hr Hc). ring.
+  - intros r c Hr Hc Hne. unfold DFr.
+    destruct (transfer_frame k _ _ _ _ _ _ _ _ _ _ _ H HI Hwf d DP HDP) as (DP' & HDP' & Hf).
+    rewrite (lwf_eq s' d DP' _ HDP'), (lwf_eq s d DP _ HDP). apply Hf. intros _ t Ht.
+    rewrite (ET ltac:(lia)) in Ht.
+    destruct (zip3_In _ _ _ _ _ (column_wells_length _ _) (column_wells_length _ _) (repeat_length _ _) Ht)
+      as (m & Hm' & ->).
+    cbn [fst snd]. rewrite column_wells_nth by exact Hm'. rewrite Hidx by assumption.
+    destruct (Nat.eqb_spec cx c) as [E|_]; [congruence|]. apply andb_false_r.
+  - intros r Hr.
+    destruct (transfer_uniform k _ _ _ _ _ _ _ _ _ _ _ (r * gD + cx)%nat (r * g + cx)%nat P DP H HI Hwf Hm HP HDP)
+      as (DP' & HDP' & Hamt).
+    + intros t Ht Hdst. rewrite (ET ltac:(lia)) in Ht.
+      destruct (zip3_In _ _ _ _ _ (column_wells_length _ _) (column_wells_length _ _) (repeat_length _ _) Ht)
+        as (m & Hm' & ->).
+      cbn [fst snd] in *. rewrite column_wells_nth in * by exact Hm'.
+      rewrite Hidx in Hdst by assumption.
+      apply andb_true_iff in Hdst. destruct Hdst as [Hdst _]. apply Nat.eqb_eq in Hdst. subst m.
+      apply plate_lw_index_now; assumption.
+    + intro E. exfalso. apply d_ne_pl. symmetry. exact E.
+    + intro E. exfalso. apply d_ne_pl. symmetry. exact E.
+    + unfold DV, DFr, PF.
+      rewrite (lwv_eq s' d DP' _ HDP'), (lwf_eq s' d DP' _ HDP'), (lwv_eq s d DP _ HDP), (lwf_eq s d DP _ HDP),
+        (lwf_eq s pl P _ HP).
+      rewrite Hamt, (ET ltac:(lia)), (Hwin r cx Hr HcxD), Nat.eqb_refl. reflexivity.
+Qed.
+
+(** the instruction of column [n], seen from the destination plate *)
+Lemma instr_effect_dest s s' wm n :
+  (n < length ideal)%nat ->
+  run_ops s (instr_ops a p wm gs gd (nth n (dp_instr p) dinstr)) = (s', None) ->
+  Good s -> GoodD s -> Done s' n ->
+  GoodD s' /\
+  (forall r c, (r < tw_R a)%nat -> (c < gD)%nat -> c <> n -> DV s' r c == DV s r c /\ DFr s' r c = DFr s r c) /\
+  (forall r, (r < tw_R a)%nat ->
+     DV s' r n == DV s r n + tw_v_destination a /\
+     DV s' r n * DFr s' r n * stock == DV s r n * DFr s r n * stock + tw_v_destination a * pconc p n r).
+Proof.
+  intros Hn H HG HGD HDone.
+  destruct (plan_col_facts n Hn) as (_ & Hcol & _ & Hng & _).
+  set (x := nth n (dp_instr p) dinstr) in *.
+  assert (HnD : (n < gD)%nat) by (unfold gD; lia).
+  destruct (Hdest d Hd) as (Hdp & Hds & Hdd).
+  rewrite instr_ops_split, run_ops_app in H.
+  destruct (run_ops s (stock_part a gs x ++ dilute_part a p gd x ++ mix_part a p wm x ++ serial_part a p x))
+    as [s4 [e|]] eqn:E4; [discriminate|].
+  destruct (run_ops_frame_d _ _ _ (fun o Ho => pre_dest_untouched a p gs gd d wm x o Hdp Hds Hdd Ho) E4 HG HGD)
+    as (HG4 & HGD4 & Hf4).
+  unfold dest_part in H. rewrite Hd in H. cbn [run_ops] in H.
+  destruct (step s4 (dest_op a x d)) as [sa [e|]] eqn:E1; [discriminate|].
+  destruct (step sa OCommit) as [sb [e|]] eqn:E2; [discriminate|]. injection H as <-.
+  unfold dest_op in E1. cbn [step] in E1. rewrite Hcol in E1.
+  destruct (dest_effect_d _ _ n _ _ _ E1 HG4 HGD4 Hng HnD) as (HGa & HGDa & HPFa & HDVa & HDFa & Hamt).
+  destruct (good_commit _ _ E2 HGa) as (HGb & Hsb).
+  assert (HaccD : forall r c, DV sb r c = DV sa r c /\ DFr sb r c = DFr sa r c).
+  { intros r c. unfold DV, DFr, lwv, lwf. rewrite Hsb. split; reflexivity. }
+  assert (HaccP : forall r c, PF sb r c = PF sa r c).
+  { intros r c. unfold PF, lwf. rewrite Hsb. reflexivity. }
+  split; [unfold GoodD; rewrite Hsb; exact HGDa|]. split.
+  - intros r c Hr Hc Hne. destruct (HaccD r c) as (-> & ->).
+    rewrite (HDVa r c Hr Hc), (HDFa r c Hr Hc Hne).
+    unfold DV, DFr. destruct (Hf4 (r * gD + c)%nat) as (-> & ->).
+    destruct (Nat.eqb_spec n c) as [E|_]; [congruence|]. split; [ring|reflexivity].
+  - intros r Hr. destruct (HaccD r n) as (-> & ->).
+    pose proof (HDone r Hr) as Hdn. rewrite HaccP, HPFa in Hdn.
+    rewrite (Hamt r Hr), (HDVa r n Hr HnD), Nat.eqb_refl.
+    unfold DV, DFr. destruct (Hf4 (r * gD + n)%nat) as (-> & ->).
+    split; [reflexivity|]. rewrite <- Hdn. ring.
+Qed.
+
+Definition DDone (s : state) (c : nat) : Prop :=
+  forall r, (r < tw_R a)%nat -> DV s r c == tw_v_destination a /\ DFr s r c * stock == pconc p c r.
+Definition DEmpty (s : state) (c : nat) : Prop := forall r, (r < tw_R a)%nat -> DV s r c == 0.
+(** the destination plate when the instructions of columns < n have been executed *)
+Definition DInv (s : state) (n : nat) : Prop :=
+  (forall c, (c < n)%nat -> (c < length ideal)%nat -> DDone s c) /\
+  (forall c, (n <= c)%nat -> (c < length ideal)%nat -> DEmpty s c).
+
+Lemma plan_effect_dest : forall m n wms s s',
+  (n + m = length ideal)%nat -> length wms = m ->
+  (forall c, (c < length ideal)%nat -> ~ nth c vmax 0 == 0) ->
+  run_ops s (plan_ops a p gs gd (skipn n (dp_instr p)) wms) = (s', None) ->
+  Good s -> GoodD s -> Inv s n -> DInv s n ->
+  Good s' /\ Inv s' (length ideal) /\ GoodD s' /\ DInv s' (length ideal).
+Proof.
+  destruct (proj1 (c14_complete ideal stock vmax mt) p Hplan) as (_ & L1 & _).
+  induction m as [|m IH]; intros n wms s s' Hnm Lw Hvm H HG HGD HInv HDI.
+  - assert (n = length ideal) by lia. subst n.
+    rewrite skipn_all2 in H by lia. unfold plan_ops in H. cbn [zip flat_map run_ops] in H.
+    injection H as <-. split; [exact HG|]. split; [exact HInv|]. split; [exact HGD|exact HDI].
+  - assert (Hn : (n < length ideal)%nat) by lia.
+    rewrite (skipn_nth_cons dinstr) in H by (rewrite L1; exact Hn).
+    destruct wms as [|wm wms]; [discriminate|]. cbn [length] in Lw.
+    unfold plan_ops in H. cbn [zip flat_map fst snd] in H. fold (plan_ops a p gs gd (skipn (S n) (dp_instr p)) wms) in H.
+    rewrite run_ops_app in H.
+    destruct (run_ops s (instr_ops a p wm gs gd (nth n (dp_instr p) dinstr))) as [s1 [e|]] eqn:E1; [discriminate|].
+    destruct (inv_step _ _ _ n Hn (Hvm n Hn) E1 HG HInv) as (HG1 & HInv1).
+    assert (HDone1 : Done s1 n).
+    { destruct HInv1 as (_ & _ & HD1 & _). apply HD1; [lia|exact Hn]. }
+    destruct (instr_effect_dest _ _ _ n Hn E1 HG HGD HDone1) as (HGD1 & Hother & Hcoln).
+    destruct HDI as (HDD & HDE).
+    apply (IH (S n) wms s1 s'); [lia|lia|exact Hvm|exact H|exact HG1|exact HGD1|exact HInv1|].
+    assert (HcD : forall c, (c < length ideal)%nat -> (c < gD)%nat) by (intros c Hc; unfold gD; lia).
+    split.
+    + intros c Hc Hcl r Hr. destruct (Nat.eq_dec c n) as [->|Hne].
+      * destruct (Hcoln r Hr) as (V1 & A1). pose proof (HDE n (le_n n) Hn r Hr) as He.
+        rewrite He in V1, A1.
+        assert (V1' : DV s1 r n == tw_v_destination a) by (rewrite V1; ring).
+        split; [exact V1'|].
+        assert (Hnz : ~ tw_v_destination a == 0) by lra.
+        apply (Qmult_inj_l _ _ (tw_v_destination a) Hnz).
+        rewrite V1' in A1.
+        setoid_replace (tw_v_destination a * (DFr s1 r n * stock))
+          with (tw_v_destination a * DFr s1 r n * stock) by ring.
+        rewrite A1. ring.
+      * destruct (Hother r c Hr (HcD c Hcl) Hne) as (V & F). rewrite V, F.
+        exact (HDD c ltac:(lia) Hcl r Hr).
+    + intros c Hc Hcl r Hr.
+      destruct (Hother r c Hr (HcD c Hcl) ltac:(lia)) as (V & _). rewrite V.
+      exact (HDE c ltac:(lia) Hcl r Hr).
+Qed.
+
+End Destination.
 
 End Concentration.
 
@@ -2474,7 +3160,7 @@ Theorem c14_exec_concentration ideal stock vmax mt p R a C s s' P St D k :
   plan_core ideal stock vmax mt = Ok p -> Forall (fun col => length col = R) ideal ->
   length vmax = length ideal -> tw_R a = R -> Forall (fun v => 0 < v) vmax ->
   to_worklist s a p C = (s', None) -> wf_state s -> st_inv s -> 0 < w_max (st_wl s) ->
-  tw_plate a <> tw_stock a -> tw_plate a <> tw_diluent a -> tw_stock a <> tw_diluent a ->
+  tw_plate a <> tw_stock a -> tw_plate a <> tw_diluent a ->
   (forall d, tw_dest a = Some d -> d <> tw_plate a /\ d <> tw_stock a /\ d <> tw_diluent a) ->
   nth_error (st_lw s) (tw_plate a) = Some P -> nth_error (st_lw s) (tw_stock a) = Some St ->
   nth_error (st_lw s) (tw_diluent a) = Some D ->
@@ -2485,7 +3171,7 @@ Theorem c14_exec_concentration ideal stock vmax mt p R a C s s' P St D k :
     forall r c, (r < R)%nat -> (c < length ideal)%nat ->
       frac P' k (r * g_cols (lw_geom P) + c) * stock == pconc p c r.
 Proof.
-  intros Hplan Hrect Lv HR Hpos Hrun Hwf HI Hm Hps Hpd Hsd Hdest HP HSt HD HPt Hempty HfS HfD.
+  intros Hplan Hrect Lv HR Hpos Hrun Hwf HI Hm Hps Hpd Hdest HP HSt HD HPt Hempty HfS HfD.
   subst R.
   unfold to_worklist in Hrun. rewrite HP, HSt, HD in Hrun.
   destruct ((n_row_ids (lw_geom P) <? tw_R a)%nat || (g_cols (lw_geom P) <? C)%nat) eqn:E1; [discriminate|].
@@ -2522,7 +3208,7 @@ Proof.
     assert (HE : Empty a P s c0).
     { intros r0 Hr0. unfold PV, lwv. rewrite HP. exact (Hempty r0 c0 Hr0 Hc0). }
     destruct (psrc p c0) as [k0|]; [|exact HE]. cbn [Nat.ltb Nat.leb]. exact HE. }
-  destruct (plan_effect k a p ideal stock vmax mt P St D vs vd Hplan Hrect Lv Hps Hpd Hsd Hdest EvP E1 HC EvS EvD
+  destruct (plan_effect k a p ideal stock vmax mt P St D vs vd Hplan Hrect Lv Hps Hpd Hdest EvP E1 HC EvS EvD
               (wf_geom_nth _ _ _ Hwf HSt) (wf_geom_nth _ _ _ Hwf HD)
               (length ideal) 0%nat wms s s' ltac:(lia) ltac:(rewrite Lw; exact L1))
     as (_ & _ & _ & HDone & _).
@@ -2531,4 +3217,99 @@ Proof.
   - exact HG.
   - exact HInv0.
   - pose proof (HDone c Hc Hc r Hr) as Hd. unfold PF, lwf in Hd. rewrite HP' in Hd. exact Hd.
+Qed.
+
+(* ------------------------------------------------------------------------------------------ *)
+(** * the destination plate: volume and tracked composition of every well *)
+
+(** With a destination plate [d] (not a trough, different from the plate and the troughs) that is empty
+    in the used region, and [0 < v_destination]: after the run every well (r, c) of the destination
+    plate holds exactly [v_destination] with exactly the reported concentration x[c][r].  The transfer
+    of column c to the destination is the last operation of instruction c (after the serial transfers
+    out of column c), when the column has its final composition. *)
+Theorem c14_exec_destination ideal stock vmax mt p R a C s s' P St D d DP k :
+  plan_core ideal stock vmax mt = Ok p -> Forall (fun col => length col = R) ideal ->
+  length vmax = length ideal -> tw_R a = R -> Forall (fun v => 0 < v) vmax ->
+  to_worklist s a p C = (s', None) -> wf_state s -> st_inv s -> 0 < w_max (st_wl s) ->
+  tw_plate a <> tw_stock a -> tw_plate a <> tw_diluent a ->
+  tw_dest a = Some d -> d <> tw_plate a -> d <> tw_stock a -> d <> tw_diluent a ->
+  nth_error (st_lw s) (tw_plate a) = Some P -> nth_error (st_lw s) (tw_stock a) = Some St ->
+  nth_error (st_lw s) (tw_diluent a) = Some D -> nth_error (st_lw s) d = Some DP ->
+  is_trough (lw_geom P) = false -> is_trough (lw_geom DP) = false ->
+  (forall r c, (r < R)%nat -> (c < length ideal)%nat -> vol_at P (r * g_cols (lw_geom P) + c) == 0) ->
+  (forall r c, (r < R)%nat -> (c < length ideal)%nat -> vol_at DP (r * g_cols (lw_geom DP) + c) == 0) ->
+  frac St k (tw_stock_column a) == 1 -> frac D k (tw_diluent_column a) == 0 ->
+  0 < tw_v_destination a ->
+  exists DP', nth_error (st_lw s') d = Some DP' /\ lw_geom DP' = lw_geom DP /\
+    forall r c, (r < R)%nat -> (c < length ideal)%nat ->
+      lw_index DP (well_id r c) = Some (r * g_cols (lw_geom DP) + c)%nat /\
+      vol_at DP' (r * g_cols (lw_geom DP) + c) == tw_v_destination a /\
+      frac DP' k (r * g_cols (lw_geom DP) + c) * stock == pconc p c r.
+Proof.
+  intros Hplan Hrect Lv HR Hpos Hrun Hwf HI Hm Hps Hpd Hd Hdp Hds Hdd HP HSt HD HDP HPt HDt Hempty HemptyD
+    HfS HfD Hvd.
+  destruct (c14_exec_destination_volumes ideal stock vmax mt p R a C s s' d DP
+              Hplan Hrect HR Hrun Hwf Hm Hd Hdp Hds Hdd HDP HDt) as (DP' & HDP' & HgDP' & Hvols).
+  exists DP'. split; [exact HDP'|]. split; [exact HgDP'|].
+  subst R.
+  assert (Hdest : forall d0, tw_dest a = Some d0 -> d0 <> tw_plate a /\ d0 <> tw_stock a /\ d0 <> tw_diluent a).
+  { intros d0 Hd0. rewrite Hd in Hd0. injection Hd0 as <-. split; [exact Hdp|]. split; [exact Hds|exact Hdd]. }
+  unfold to_worklist in Hrun. rewrite HP, HSt, HD in Hrun.
+  destruct ((n_row_ids (lw_geom P) <? tw_R a)%nat || (g_cols (lw_geom P) <? C)%nat) eqn:E1; [discriminate|].
+  rewrite Hd in Hrun. cbv beta iota in Hrun. rewrite HDP in Hrun.
+  destruct ((n_row_ids (lw_geom DP) <? tw_R a)%nat || (g_cols (lw_geom DP) <? C)%nat) eqn:E2; [discriminate|].
+  destruct (negb (is_trough (lw_geom St)) || negb (is_trough (lw_geom D))) eqn:E3; [discriminate|].
+  apply orb_false_iff in E1. destruct E1 as [E1 _]. apply Nat.ltb_ge in E1.
+  apply orb_false_iff in E2. destruct E2 as [E2 _]. apply Nat.ltb_ge in E2.
+  apply orb_false_iff in E3. destruct E3 as [E3a E3b].
+  apply negb_false_iff in E3a. apply negb_false_iff in E3b.
+  unfold is_trough in E3a, E3b, HPt, HDt.
+  destruct (g_vrows (lw_geom St)) as [vs|] eqn:EvS; [|discriminate].
+  destruct (g_vrows (lw_geom D)) as [vd|] eqn:EvD; [|discriminate].
+  destruct (g_vrows (lw_geom P)) as [vp|] eqn:EvP; [discriminate|].
+  destruct (g_vrows (lw_geom DP)) as [vq|] eqn:EvQ; [discriminate|].
+  clear E3a E3b HPt HDt.
+  destruct (run_instrs_ops _ _ _ _ _ _ _ Hrun) as (wms & Lw & Hops).
+  destruct (run_ops_ledger _ _ _ (plan_ops_tc _ _ _ _ _ _) Hops Hwf Hm) as (_ & _ & Hoks & _ & _).
+  intros r c Hr Hc.
+  assert (HR1 : (1 <= tw_R a)%nat) by lia.
+  pose proof (plan_cols_on_plate a p _ _ wms _ P Lw HR1 Hoks HP) as Hcolx.
+  pose proof (plan_cols_on_dest a p _ _ wms _ d DP Lw HR1 Hd Hoks HDP) as HcolD.
+  destruct (proj1 (c14_complete ideal stock vmax mt) p Hplan) as (_ & L1 & _ & _ & Hcol).
+  assert (Hlast : forall (L : labware), (forall x, In x (dp_instr p) -> (i_col x < g_cols (lw_geom L))%nat) ->
+                    (length ideal <= g_cols (lw_geom L))%nat).
+  { intros L HL. destruct (Nat.eq_dec (length ideal) 0) as [E0|N0]; [lia|].
+    assert (Hm' : (length ideal - 1 < length ideal)%nat) by lia.
+    pose proof (HL (nth (length ideal - 1) (dp_instr p) dinstr) ltac:(apply nth_In; rewrite L1; exact Hm')) as Hlt.
+    rewrite (Hcol _ Hm') in Hlt. lia. }
+  pose proof (Hlast P Hcolx) as HC. pose proof (Hlast DP HcolD) as HCD.
+  assert (HG : Good a P St D s).
+  { split; [exact Hwf|]. split; [exact HI|]. split; [exact Hm|].
+    split; [exists P; split; [exact HP|reflexivity]|].
+    split; [exists St; split; [exact HSt|reflexivity]|exists D; split; [exact HD|reflexivity]]. }
+  assert (HGD : GoodD d DP s) by (exists DP; split; [exact HDP|reflexivity]).
+  assert (HInv0 : Inv k a p ideal stock P s 0).
+  { split; [unfold SF, lwf; rewrite HSt; exact HfS|]. split; [unfold DF, lwf; rewrite HD; exact HfD|].
+    split; [intros c0 Hc0; lia|].
+    intros c0 _ Hc0.
+    assert (HE : Empty a P s c0).
+    { intros r0 Hr0. unfold PV, lwv. rewrite HP. exact (Hempty r0 c0 Hr0 Hc0). }
+    destruct (psrc p c0) as [k0|]; [|exact HE]. cbn [Nat.ltb Nat.leb]. exact HE. }
+  assert (HDInv0 : DInv k a p ideal stock d DP s 0).
+  { split; [intros c0 Hc0; lia|].
+    intros c0 _ Hc0 r0 Hr0. unfold DV, lwv. rewrite HDP. exact (HemptyD r0 c0 Hr0 Hc0). }
+  destruct (plan_effect_dest k a p ideal stock vmax mt P St D vs vd Hplan Hrect Lv Hps Hpd Hdest EvP E1 HC EvS EvD
+              (wf_geom_nth _ _ _ Hwf HSt) (wf_geom_nth _ _ _ Hwf HD) d DP Hd EvQ E2 HCD Hvd
+              (length ideal) 0%nat wms s s' ltac:(lia) ltac:(rewrite Lw; exact L1))
+    as (_ & _ & _ & HDD & _).
+  - intros c0 Hc0. pose proof (vmax_pos_nth vmax c0 Hpos ltac:(lia)). lra.
+  - cbn [skipn]. exact Hops.
+  - exact HG.
+  - exact HGD.
+  - exact HInv0.
+  - exact HDInv0.
+  - destruct (Hvols r c Hr Hc) as (Hidx & Hv).
+    split; [exact Hidx|].
+    destruct (HDD c Hc Hc r Hr) as (V & F). unfold DV, DFr, lwv, lwf in V, F. rewrite HDP' in V, F.
+    split; [exact V|exact F].
 Qed.
